@@ -164,8 +164,12 @@ class Foreign(Problem):
             # `git log --format=… -p`, `(git diff; some-command) | delta`)
             # ... or the empty line that `git log` writes between the last file of a commit and what follows
             info = producers.section(kind, 0, body)[1]
+            after = self.after_section
+            if kind == "binary_patch":
+                # (directly after a part of a binary patch `literal N` / `delta N` opens the next part: a marker there)
+                after = [l for l in after if not l.startswith((b"literal ", b"delta "))]
             return [(producers.COMMIT_BLOCK[0].replace(b"1", b"3"), (4, 0, 0), "commit")] + \
-                [(l, (5, 1, 0), "foreign") for l in self.after_section] + \
+                [(l, (5, 1, 0), "foreign") for l in after] + \
                 [(b"", (6, 0, idx), "blank" if not info["has_hunk"] else "blank-after-hunk")]
         if phase == 6:
             # (after the separator line; a second one, then text)
@@ -228,7 +232,8 @@ DIMS = [
 ]
 
 SECTION_KINDS = [("modified", "ctx"), ("modified", "minusplus"), ("mode", "ctx"), ("binary", "ctx"),
-                 ("rename", "ctx"), ("added", "nonl"), ("combined", "ctx"), ("combined", "minusplus")]
+                 ("rename", "ctx"), ("added", "nonl"), ("combined", "ctx"), ("combined", "minusplus"),
+                 ("binary_patch", "ctx")]
 
 
 def run_task(task):
